@@ -314,11 +314,31 @@ def fusion_rule(report, E, rid, title, handlers, handled, comments=False,
     forbidden_after_number = identifier_start_or_digit(E)
     findings = {}
     checked = 0
+    contextual = {lex for t, lex in E.lm.fixed.items()
+                  if t in ('GETPROP', 'SETPROP') and lex}
     for (ta, run, tb) in sorted(windows, key=repr):
         if ta == 'START' or tb == 'END':
             continue
         la, _ = E.boundary_atoms(ta)
         _, fb = E.boundary_atoms(tb)
+        if ta[0] == 'lit' and ta[1] in contextual:
+            # `get` / `set` are the accessor keywords only when white space
+            # follows (the lexer's look-ahead): whatever the next token
+            # is, the run must print some
+            for y in fb:
+                for after in E.words(tb, first=y)[:1]:
+                    out = ''.join(E.run_output(handlers, run, ta[1], after))
+                    checked += 1
+                    if out[:1].isspace():
+                        continue
+                    slot = ' '.join('%s(%s)' % (m[0], m[1]) for m in run) \
+                        or '<adjacent>'
+                    key = '%s|%s|%s: no white space after the accessor ' \
+                        'keyword' % (desc(ta), slot, desc(tb))
+                    findings.setdefault(key, []).append((
+                        '%s%s%s' % (ta[1], out, after),
+                        'the lexer reads `%s` as the accessor keyword only '
+                        'before white space' % ta[1]))
         for x in la:
             for y in fb:
                 w = E.fusion(ta, tb, x, y)
